@@ -208,6 +208,7 @@ def run_live(case, out):
         out.d("live:%s:%d:%s:%s:%s:%s:%s:%s" % (kind, n, case["out"], case["pre"], case.get("api_error"), case.get("attempts"), case.get("order"), case.get("omit")))
     finally:
         livecases.finish(w)
+    return tr
 
 
 # ------------------------------------------------------------------------------------------------
